@@ -39,6 +39,12 @@ def rejected_patterns():
     for g in ("GGGG", "GG", "0G"):
         for w in ("WW", "0W", "UU", "0U"):
             out.append(g + "." + w)
+    # both kinds of year in one pattern: whatever the week part is, it mismatches one of them
+    for y in ("YYYY", "YY", "0Y"):
+        for g in ("GGGG", "GG", "0G"):
+            for w in ("WW", "0U", "VV", "0V"):
+                out.append(y + "." + w + "." + g)
+                out.append(g + "." + w + "." + y)
     return out
 
 
